@@ -987,6 +987,10 @@ func (p *parser) scanGroupOpen() (*RegexNode, error) {
 		return newRegexNodeMN(NtCapture, p.options, p.consumeAutocap(), -1), nil
 	}
 
+	// a "(?" construct never captures by position, so a pending "ignore the next paren" (set for the
+	// condition of an alternation construct) ends here, exactly as it does in countCaptures.
+	p.ignoreNextParen = false
+
 	p.moveRight(1)
 
 	for p.charsRight() > 0 {
